@@ -1,6 +1,7 @@
 package main
 
 import (
+	"regexp"
 	"fmt"
 	"go/ast"
 	"go/parser"
@@ -403,10 +404,28 @@ func genSynth(prog *Program, p *Pkg) (string, error) {
 				c.Assumed = true
 				continue
 			}
-			if fd == nil {
+			var fobj *types.Func
+			if fd == nil && c.Assumed {
+				// an assumed contract on an interface method, `(I).m`: there is no declaration with a body; the
+				// receiver is called recv in the clauses
+				if m := regexp.MustCompile(`^\((\w+)\)\.(\w+)$`).FindStringSubmatch(c.Name); m != nil {
+					if tn, ok := p.Types.Scope().Lookup(m[1]).(*types.TypeName); ok {
+						if it, ok := tn.Type().Underlying().(*types.Interface); ok {
+							for i := 0; i < it.NumMethods(); i++ {
+								if it.Method(i).Name() == m[2] {
+									fobj = it.Method(i)
+								}
+							}
+						}
+					}
+				}
+			}
+			if fd == nil && fobj == nil {
 				return "", &DriftError{Func: p.Path + "." + c.Name, Msg: "function not found"}
 			}
-			fobj, _ := p.Info.Defs[fd.Name].(*types.Func)
+			if fobj == nil {
+				fobj, _ = p.Info.Defs[fd.Name].(*types.Func)
+			}
 			if fobj == nil {
 				return "", fmt.Errorf("no type info for %s", c.Name)
 			}
@@ -456,6 +475,9 @@ func genSynth(prog *Program, p *Pkg) (string, error) {
 				m.GoFn = fmt.Sprintf("V_m_%d", g.n)
 				m.Params = reqNames
 				fmt.Fprintf(&body, "func %s(%s) any { return %s }\n", m.GoFn, strings.Join(reqParams, ", "), m.Text)
+			}
+			if fd == nil {
+				continue // interface method: no body, no loops
 			}
 			loops := loopsOf(fd.Body)
 			if c.Frame && !c.Assumed && c.Mode != "opaque" && fd.Body != nil {
